@@ -30,6 +30,10 @@ class C06(Prop):
         ver = lambda: r.choice(['vok', 'verr2'])
         def hdr():
             h = g.hdr(1, wild=False)
+            if r.random() < 0.08:
+                # two byte fields alike and nothing else; a typed label as a plain extra with the typed field unset (informed round 13: a
+                # header whose key id equals its IV counted as empty)
+                return r.choice(['(hdr - (crit) - b0a0b b0a0b b (cs) (rest))', '(hdr - (crit) - b0a0b b b0a0b (cs) (rest))', '(hdr - (crit) - b01 b01 b (cs) (rest))', '(hdr - (crit) - b b b (cs) (rest i4 b01))', '(hdr - (crit) - b b b (cs) (rest i5 b01 i4 b01))'])
             if r.random() < 0.2:
                 # a header that is not a fixed point of decode-then-encode (a short bignum tag among the extras, a core label given as
                 # an extra entry): what the creating call saw must still be what the verifying call sees after the wire (seeded C06-r4)
@@ -533,6 +537,13 @@ class C11(Prop):
                        'enc CoseSign (sign (ph - %s) %s b0a (sigs %s %s %s))' % (H, H, sg, sg, sg), 'enc CoseEncrypt (enc (ph - %s) %s b0a (rcps %s %s))' % (H, H, rc, rc),
                        'enc CoseMac (mac (ph - %s) %s b0a b0a (rcps %s %s %s))' % (H, H, rc, rc, rc), 'enc Header (hdr - (crit) - b b b (cs %s %s) (rest))' % (sg, sg), 'enct CoseSign1 (sign1 (ph - %s) %s b0a b0a)' % (H, H)):
                 ops.append(mk(op, k='coincide'))
+        for H in ('(hdr - (crit) - b0a0b b0a0b b (cs) (rest))', '(hdr - (crit) - b0a0b b b0a0b (cs) (rest))', '(hdr - (crit) - b01 b01 b (cs) (rest))', '(hdr - (crit) - b b07 b (cs) (rest i9 b07))'):
+            for op in ('enc Header %s', 'tov Header %s', 'tobstr (ph - %s)', 'enc CoseSign1 (sign1 (ph - %s) (hdr - (crit) - b b b (cs) (rest)) b70 b01)', 'enc CoseEncrypt0 (enc0 (ph - %s) (hdr - (crit) - b b b (cs) (rest)) b70)', 'isempty %s'): ops.append(mk(op % H, k='coincide'))
+        # empty entries in lists of byte strings, at any index (informed round 13: SuppPrivInfo read back through the non-empty helper)
+        for pv in ('b', 'b b', 'b010203 b', 'b b010203', 'b01 b b02'):
+            ops.append(mk('enc CoseKdfContext (kdf A1 (party - - -) (party b b b) (supp i128 (ph - %s) b) (priv %s))' % (C02.EMPTY, pv), k='empty-entry'))
+        for op in ('enc PartyInfo (party b b b)', 'enc SuppPubInfo (supp i0 (ph - %s) b)' % C02.EMPTY, 'enc ClaimsSet (cwt t t t - - - b (rest))', 'enc CoseSign1 (sign1 (ph - %s) %s b b)' % (C02.EMPTY, C02.EMPTY), 'enc CoseMac0 (mac0 (ph - %s) %s b b)' % (C02.EMPTY, C02.EMPTY),
+                   'enc CoseEncrypt0 (enc0 (ph - %s) %s b)' % (C02.EMPTY, C02.EMPTY), 'enc CoseKey (key A4 b - (ops) b (params i-1 b))'): ops.append(mk(op, k='empty-entry'))
         for op in ('enc CoseKey (key A4 b0a - (ops) b0a (params i-1 b0a i-2 b0a))', 'enc CoseKeySet (keyset (key A4 b0a - (ops) b (params)) (key A4 b0a - (ops) b (params)) (key A4 b0a - (ops) b (params)))',
                    'enc ClaimsSet (cwt t61 t61 t61 W5 W5 W5 b61 (rest))', 'enc ClaimsSet (cwt t t t W0 W0 W0 b (rest))', 'enc PartyInfo (party b0a b0a b0a)', 'enc CoseKdfContext (kdf A1 (party b0a b0a b0a) (party b0a b0a b0a) (supp i128 (ph - %s) b0a) (priv b0a b0a))' % C02.EMPTY,
                    'enc ClaimsSet (cwt - - - F3ff8000000000000 F3ff8000000000000 F3ff8000000000000 - (rest))'):
@@ -807,6 +818,10 @@ class C13(Prop):
             wb = refcbor.head(2, len(body)) + body
             for t2 in all_tags(): ops.append(mk('dect %s b%s' % (t, (refcbor.head(6, tag) + refcbor.head(6, t2) + wb).hex()), k='wrapped-body', must_reject=True))
             for inner in (wb, b'\x81' + body, refcbor.head(6, 24) + refcbor.head(6, 24) + wb, refcbor.head(2, len(wb)) + wb): ops.append(mk('dect %s b%s' % (t, (refcbor.head(6, tag) + inner).hex()), k='wrapped-body', must_reject=True))
+            # an array / a map that pairs the tag number with the body is not a tagged item (informed round 13: `deserialized` into a pair)
+            th = refcbor.head(0, tag)
+            for fake in (b'\x82' + th + body, b'\x83' + th + body + b'\x00', b'\x9f' + th + body + b'\xff', b'\xa1' + th + body, b'\x82\xc2\x41' + bytes([tag % 256]) + body, b'\x82' + refcbor.head(3, 2) + str(tag).encode()[:2].ljust(2, b' ') + body):
+                ops.append(mk('dect %s b%s' % (t, fake.hex()), k='fake-tag', must_reject=True))
         # tag numbers that alias the registered one under a narrowing to 8 / 16 / 32 bits (informed round 11: `t as u32 != TAG as u32`)
         SIMPLE = {'CoseSign': '8443a10126a0f6818340a04101', 'CoseSign1': '8443a10126a0f64101', 'CoseEncrypt': '8440a0f6818340a0f6', 'CoseEncrypt0': '8340a0f6', 'CoseMac': '8540a0f64101818340a0f6', 'CoseMac0': '8440a0f64101'}
         for t, tag in TAGGED.items():
